@@ -55,6 +55,8 @@ def run_case(case):
 			return {'ok': exp == act and okfound, 'expected': exp, 'actual': act}
 		finally:
 			shutil.rmtree(tmp, ignore_errors=True)
+	if kind == 'idattr':
+		return _idattr_case(case)
 	db, sigs, ids, meta = _load()
 	rnd = random.Random(case.get('seed', 0))
 	n = len(ids)
@@ -105,12 +107,85 @@ def run_case(case):
 	return {'ok': not problems, 'expected': 'each genome paired with the signature carrying its ID', 'actual': problems or 'ok'}
 
 
+def _idattr_case(case):
+	"""a fresh genome set (in-memory SQLite) paired through one of the four identifier attributes; optionally two genomes that
+	share the identifier value (possible for ncbi_id: unique only together with ncbi_db) or a genome without a value"""
+	import numpy as np
+	from sqlalchemy import create_engine
+	from sqlalchemy.orm import sessionmaker
+	from gambit.db import ReferenceDatabase
+	from gambit.db.models import Base, ReferenceGenomeSet, Genome, AnnotatedGenome, Taxon
+	from gambit.db.sqla import ReadOnlySession
+	from gambit.kmers import KmerSpec
+	from gambit.sigs import SignatureList, AnnotatedSignatures, SignaturesMeta
+	from gambit.metric import jaccarddist
+	from gambit.query import query, QueryParams
+	rnd = random.Random(case['seed'])
+	attr = case['attr']
+	n = case.get('n', 5)
+	engine = create_engine('sqlite://')
+	Base.metadata.create_all(engine)
+	session = sessionmaker(engine)()
+	gset = ReferenceGenomeSet(key='set', version='1', name='set')
+	session.add(gset)
+	taxon = Taxon(key='t1', name='taxon 1', rank='species', distance_threshold=0.5, genome_set=gset)
+	session.add(taxon)
+	vals = []
+	for i in range(n):
+		g = Genome(key=f'key{i}', description=f'genome {i}', ncbi_db='assembly', ncbi_id=1000 + i, genbank_acc=f'GCA_{i:05d}.1', refseq_acc=f'GCF_{i:05d}.1')
+		if case.get('dup') is not None and i == n - 1:
+			g.ncbi_db, g.ncbi_id = 'nuccore', 1000 + case['dup']         # same ncbi_id as an earlier genome, another Entrez database
+		if case.get('null') == i and attr != 'key':
+			setattr(g, attr, None)
+		session.add(AnnotatedGenome(genome=g, genome_set=gset, organism=f'org {i}', taxon=taxon))
+		vals.append(getattr(g, attr))
+	session.commit()
+	ks = KmerSpec(5, 'AT')
+	sigs = [np.array(sorted(rnd.sample(range(4 ** 5), rnd.randrange(3, 30))), dtype=ks.index_dtype) for _ in range(n)]
+	entries = [(v, sg) for v, sg in zip(vals, sigs) if v is not None]
+	seen, uniq = set(), []
+	for v, sg in entries:
+		if v not in seen:
+			seen.add(v)
+			uniq.append((v, sg))
+	rnd.shuffle(uniq)
+	ids = np.array([v for v, _ in uniq]) if attr != 'ncbi_id' else np.array([v for v, _ in uniq], dtype=int)
+	rs = AnnotatedSignatures(SignatureList([sg for _, sg in uniq], ks), ids, SignaturesMeta(id_attr=attr))
+	incomplete = case.get('dup') is not None and attr == 'ncbi_id' or (case.get('null') is not None and attr != 'key')
+	try:
+		db = ReferenceDatabase(gset, rs)
+	except (ValueError, RuntimeError, TypeError, KeyError) as e:
+		return {'ok': bool(incomplete), 'expected': 'an error iff some genome has no signature of its own', 'actual': type(e).__name__}
+	if incomplete:
+		return {'ok': False, 'expected': 'loading fails: a genome has no signature of its own', 'actual': f'database with {len(db.genomes)} of {n} genomes'}
+	problems = []
+	if len(db.genomes) != n:
+		problems.append(f'{len(db.genomes)} genomes instead of {n}')
+	for g, si in zip(db.genomes, db.sig_indices):
+		if getattr(g, attr) != rs.ids[si]:
+			problems.append(f'genome {g.key} paired with signature id {rs.ids[si]}')
+	q = sigs[rnd.randrange(n)]
+	res = query(db, [q], QueryParams(report_closest=n))
+	truth = {vals[i]: float(jaccarddist(q, sigs[i])) for i in range(n)}
+	for m in res.items[0].closest_genomes:
+		if float(m.distance) != truth[getattr(m.genome, attr)]:
+			problems.append(f'distance reported for {m.genome.key} is not the distance to its own signature')
+			break
+	if len(res.items[0].closest_genomes) != n:
+		problems.append('not every genome has a reported distance')
+	return {'ok': not problems, 'expected': 'each genome paired with the signature carrying its ID', 'actual': problems or 'ok'}
+
+
 def bounded(tier, seed):
 	rnd = random.Random(seed)
 	cases = []
 	for i in range(6 if tier == 'quick' else 40):
 		cases.append({'kind': 'pair', 'seed': rnd.randrange(10 ** 6), 'extra': rnd.choice([0, 1, 5, 40]), 'chunksize': rnd.choice([1, 7, 1000])})
 	cases += [{'kind': 'pair', 'seed': 1, 'drop': 1}, {'kind': 'pair', 'seed': 2, 'drop': 3, 'extra': 5}, {'kind': 'pair', 'seed': 3, 'id_attr': False}]
+	for attr in ('key', 'genbank_acc', 'refseq_acc', 'ncbi_id'):
+		cases.append({'kind': 'idattr', 'attr': attr, 'seed': rnd.randrange(10 ** 6), 'n': rnd.choice([3, 6])})
+		cases.append({'kind': 'idattr', 'attr': attr, 'seed': rnd.randrange(10 ** 6), 'n': 5, 'null': 2})
+		cases.append({'kind': 'idattr', 'attr': attr, 'seed': rnd.randrange(10 ** 6), 'n': 5, 'dup': 1})
 	names_g, names_s = ['a.gdb', 'b.db'], ['a.gs', 'b.h5']
 	for gs in ([], ['a.gdb'], ['b.db'], ['a.gdb', 'b.db'], ['a.gdb', 'c.gdb']):
 		for ss in ([], ['a.gs'], ['b.h5'], ['a.gs', 'b.h5']):
@@ -124,5 +199,5 @@ def bounded(tier, seed):
 			sample.append({'case': c, 'result': r})
 		if not r.get('ok'):
 			failures.append({'case': c, 'expected': r.get('expected'), 'actual': r.get('actual'), 'class': c['kind']})
-	return {'tool': 'real ReferenceDatabase on the bundled SQLite/HDF5 database with permuted/padded/incomplete signature IDs; real locate_files on generated directories (bounded stand-in for locate_files)',
+	return {'tool': 'real ReferenceDatabase on the bundled SQLite/HDF5 database with permuted/padded/incomplete signature IDs; real locate_files on generated directories (bounded stand-in for locate_files); fresh genome sets paired through each of the four identifier attributes incl. missing and shared identifier values',
 	        'bound': f'{len(cases)} cases', 'cases': n, 'failures': failures[:4], 'samples': sample}
